@@ -51,7 +51,9 @@ Batches(from, to, cap) == IF cap = 0 \/ to <= from THEN 1 ELSE ((to - from) + ca
 Init == src = <<>> /\ out = <<>> /\ rec = 0 /\ sver = 1 /\ fc = 0 /\ dirty = FALSE /\ n = 0 /\ hist = <<>> /\ last = <<>>
 
 LastK(e) == LET l == Append(last, e) IN IF Len(l) > HistK THEN SubSeq(l, Len(l) - HistK + 1, Len(l)) ELSE l
-Log(e) == /\ hist' = Append(hist, e) /\ n' = n + 1 /\ last' = LastK(<<e.op, IF "vals" \in DOMAIN e THEN e.vals ELSE <<>> >>)
+Key(e) == IF "vals" \in DOMAIN e THEN e.vals ELSE IF "to" \in DOMAIN e THEN <<e.to>>
+          ELSE IF "cap" \in DOMAIN e THEN <<e.max_from, e.cap>> ELSE <<>>
+Log(e) == /\ hist' = Append(hist, e) /\ n' = n + 1 /\ last' = LastK(<<e.op, Key(e)>>)
 
 Append1 ==
   /\ n < Depth /\ Len(src) < MaxLen
